@@ -453,6 +453,8 @@ def replay(spec, acc):
     from yowsup.env.env_android import AndroidYowsupEnv
     from yowsup.common.http.warequest import WARequest as W
     w = spec["witness"]
+    if "after_refused_params_kind" in w:
+        _bad_calls[0] = w["after_refused_params_kind"] * 3 + 2      # the replayed request follows the same refused call as in the run
     if w["op"] == "token":
         if AndroidYowsupEnv().getToken(w["phone"]) != ref_token(w["phone"]):
             acc.violation("token-differs", "getToken differs", w)
